@@ -32,7 +32,7 @@ let show_send s = match s with
       (hex_of_str (join [n_of_int 32] scopes)) (show_secret grant)
 let show_result r = match r with
   | RResp true -> "=401" | RResp false -> "=ok"
-  | RErr ENoCred -> "=nocred" | RErr EMissing -> "=missing" | RErr EFetch -> "=fetch" | RErr ERewind -> "=rewind" | RErr ETransport -> "=transport" | RErr ECred -> "=crederr"
+  | RErr ENoCred -> "=nocred" | RErr EMissing -> "=missing" | RErr EFetch -> "=fetch" | RErr ERewind -> "=rewind" | RErr ETransport -> "=transport" | RErr ECred -> "=crederr" | RErr EShared -> "=fetch"
   | RBad -> "=BAD"
 
 let parse_answer t =
@@ -43,6 +43,7 @@ let parse_answer t =
   | 'F' -> AFail
   | 'S' -> AShare (n_of_int (int_of_string (String.sub t 1 (String.length t - 1))))
   | 'X' -> AErr
+  | 'Z' -> AShareFail
   | _ -> failwith "answer"
 
 let () =
@@ -204,10 +205,15 @@ let () =
              let i = idx (if cancel then AHandBack else AClose) paths_taken in
              Hashtbl.replace entered g true;
              Hashtbl.replace steps g (len_taken (int_of_nat' i) - 1);
-             [SEnter g; STake (g, i); SAct g]                 (* ... up to the call of f *)
+             let panics = List.exists (fun u -> u.[0] = 'p' && gnum u = g) raw in
+             if panics then [SEnter g; STake (g, i)]          (* the call of f does not return *)
+             else [SEnter g; STake (g, i); SAct g]            (* ... up to the call of f *)
            | 'c' | 'd' ->
              let k = (try Hashtbl.find steps g with Not_found -> 0) in
              List.init k (fun _ -> SAct g)
+           | 'p' ->
+             (* f panicked: the deferred recover path (the first one) runs to its end *)
+             SPanicF (g, O) :: List.init (List.length (List.hd paths_panic)) (fun _ -> SAct g)
            | 'r' -> [SEnter g; SReadClosed (g, idx ARet paths_closed); SAct g]
            | 'x' -> [SEnter g; SCtxDone g]
            | _ -> failwith "once event") raw in
